@@ -116,7 +116,7 @@ package alloctxn
 //@   requires atxnInv(atxn) && lastst == 0
 //@   requires [I1-valid] validBlk(blkno) @C04 @C11
 //@   allocates buf.Buf
-//@   modifies buf.Buf.dirty, []uint8
+//@   modifies buf.Buf.dirty, []uint8@buf.Buf.Data
 //@   loop 0 invariant len(buf.Data) == 4096
 
 //@ spec (*AllocTxn).FreeBlock
@@ -124,7 +124,7 @@ package alloctxn
 //@   requires atxnInv(atxn) && listsValid(atxn) && lastst == 0
 //@   requires [I1-valid] blkno == 0 || validBlk(blkno) @C04 @C11
 //@   allocates buf.Buf
-//@   modifies buf.Buf.dirty, []uint8, atxn.freeBnums, atxn.freeBnums[*]
+//@   modifies buf.Buf.dirty, []uint8@buf.Buf.Data, atxn.freeBnums, atxn.freeBnums[*]
 //@   ensures listsValid(atxn) && listsStable(atxn)
 //@   ensures [F5-recorded] blkno != 0 ==> len(atxn.freeBnums) == old(len(atxn.freeBnums)) + 1 && atxn.freeBnums[old(len(atxn.freeBnums))] == blkno @C05
 //@   ensures blkno == 0 ==> len(atxn.freeBnums) == old(len(atxn.freeBnums))
